@@ -26,6 +26,8 @@ type Property struct {
 	NotDecided  []string
 	Replay      func(p *Program, r *OblResult, dir string) *ReplayOutcome
 	Emb         []string // nested struct types to model as separate objects
+	Select      func(name string) bool // which obligations of the shared units this property's check discharges (nil = all)
+	Siblings    string                 // which checks discharge the obligations left out by Select
 }
 
 type UnitError struct {
@@ -134,6 +136,20 @@ func checkMain(args []string) int {
 		ro.Timeout = 60
 		ro.CrossAll = true
 		ro.Parallel = 3
+	}
+	nSibling := 0
+	if prop.Select != nil {
+		for _, u := range units {
+			var keep []*Obligation
+			for _, o := range u.Obls {
+				if o.Kind == "canary" || o.Kind == "vacuity" || prop.Select(o.Name) {
+					keep = append(keep, o)
+				} else {
+					nSibling++
+				}
+			}
+			u.Obls = keep
+		}
 	}
 	results := runObligations(units, ro)
 
@@ -263,7 +279,7 @@ func checkMain(args []string) int {
 		violations = append(violations, fmt.Sprintf("VIOLATION property=%s replay=%s unit=%s no-failing-input-found", id, path, ue.Unit))
 	}
 	// locked obligations that were not regenerated
-	if !writeLock {
+	if !writeLock && os.Getenv("GOVC_FILTER") == "" {
 		for _, name := range lock[id] {
 			if !generated[name] {
 				skip := false
@@ -332,6 +348,7 @@ func checkMain(args []string) int {
 			"canaries":                 map[string]int{"run": nCan, "not_provable_as_required": nCanOK},
 			"vacuity_checks":           map[string]int{"run": nVac, "satisfiable": nVacOK},
 			"known_findings_hit":       knownHit,
+			"sibling_obligations_assumed": map[string]interface{}{"count": nSibling, "discharged_by": prop.Siblings},
 			"solver_disagreements":     disagreements,
 			"contract_files":           relPaths(prog.db.Files),
 			"assume_scan":              prog.db.Scan,
